@@ -1,7 +1,7 @@
 #!/bin/bash
 # usage: scripts/verify_seed.sh <Cxx>   - confirms a seeded defect in its scratch worktree:
 #  demo passes without the patch, fails with it, baseline 38/38 passes with the patch alone.
-id="$1"; W=/tmp/seed-$id/wt; O=/tmp/seed-$id/out
+id="$1"; W=${SEEDROOT:-/tmp/seed}-$id/wt; O=${SEEDROOT:-/tmp/seed}-$id/out
 cd "$W" || exit 2
 git checkout -q -- . ; git clean -fdq src
 t=$(python3 -c "import json;print(json.load(open('$O/meta.json'))['demo_test'])")
